@@ -80,7 +80,7 @@ Cat(ss) == FlattenSeq(ss)
 AbsInit(cfg) ==
   [cfg |-> cfg, sp |-> EmptyFn, rt |-> EmptyFn, ctx |-> EmptyFn, sc |-> EmptyFn, ls |-> EmptyFn,
    att |-> EmptyFn, exp |-> {}, opt |-> {}, dl |-> {}, never |-> {}, claims |-> {}, hints |-> {}, cyc |-> {},
-   fl |-> EmptyFn, cmds |-> EmptyFn, cut |-> {}, qs |-> {}, pk |-> EmptyFn, exc |-> {}, got |-> <<>>, gotrecs |-> <<>>, tm |-> EmptyFn, ad |-> EmptyFn, polled |-> EmptyFn, ovl |-> FALSE, free |-> {}, heap |-> None, cbs |-> {}, dur |-> EmptyFn, viol |-> <<>>]
+   fl |-> EmptyFn, cmds |-> EmptyFn, cut |-> {}, qs |-> {}, pk |-> EmptyFn, exc |-> {}, got |-> <<>>, gotrecs |-> <<>>, tm |-> EmptyFn, ad |-> EmptyFn, polled |-> EmptyFn, ovl |-> FALSE, free |-> {}, heap |-> None, cbs |-> {}, dur |-> EmptyFn, ovs |-> {}, viol |-> <<>>]
 
 Recording(a) == a.cfg.enabled /\ a.cfg.ready
 
@@ -339,7 +339,7 @@ CallLcStart(a, e) ==
 CallLcCollect(a, e) ==
   LET fr == Frames(a, e.t) i == FrameOf(fr, e.c) IN
   IF i = 0 \/ ~OnlyLocalsAbove(fr, i) THEN Viol(a, "HARNESS", "ill-nested-collector", e)
-  ELSE [CutFrames(a, e.t, i) EXCEPT !.ls = Put(@, e.ls, [ents |-> IF fr[i].live THEN a.sc[e.c].ents ELSE <<>>, t |-> e.t])]
+  ELSE [CutFrames(a, e.t, i) EXCEPT !.ls = Put(@, e.ls, [ents |-> IF fr[i].live THEN a.sc[e.c].ents ELSE <<>>, t |-> e.t, over |-> e.c \in a.ovs])]
 
 CallLcDrop(a, e) ==
   LET fr == Frames(a, e.t) IN
@@ -350,10 +350,15 @@ CallLcDrop(a, e) ==
 CanRecord(a, t) == LET s == ScopeOf(a, t) IN s # None /\ a.sc[s].smp /\ Len(a.sc[s].ents) < a.cfg.queue
 ScopeSampled(a, t) == LET s == ScopeOf(a, t) IN s # None /\ a.sc[s].smp
 AddEnt(a, t, ent) == LET s == ScopeOf(a, t) IN [a EXCEPT !.sc[s].ents = Append(@, ent)]
+\* scopes (and the sets collected from them) that have had to skip something: what they did record
+\* must still be right, and if it is not, that is C09's business too
+OverLimit(a, t) == ScopeSampled(a, t) /\ Len(a.sc[ScopeOf(a, t)].ents) >= a.cfg.queue
+MarkOver(a, t) == IF OverLimit(a, t) THEN [a EXCEPT !.ovs = @ \cup {ScopeOf(a, t)}] ELSE a
+WasOver(a, sc) == sc \in a.ovs \/ (Has(a.ls, sc) /\ a.ls[sc].over)
 
 CallLEnter(a, e) ==
   LET fr == Frames(a, e.t) ok == CanRecord(a, e.t)
-      a1 == IF ok THEN AddEnt(a, e.t, [n |-> e.l, k |-> "span", par |-> InnerLocal(fr), props |-> <<>>, open |-> TRUE]) ELSE a IN
+      a1 == IF ok THEN AddEnt(a, e.t, [n |-> e.l, k |-> "span", par |-> InnerLocal(fr), props |-> <<>>, open |-> TRUE]) ELSE MarkOver(a, e.t) IN
   [a1 EXCEPT !.ctx = Put(@, e.t, Append(fr, [k |-> "ls", n |-> e.l, live |-> ok]))]
 
 CallLExit(a, e) ==
@@ -367,11 +372,11 @@ CallLExit(a, e) ==
 CallLEvent(a, e) ==
   IF CanRecord(a, e.t)
   THEN AddEnt(a, e.t, [n |-> e.evt.name, k |-> "event", par |-> InnerLocal(Frames(a, e.t)), props |-> e.evt.props, open |-> FALSE])
-  ELSE a
+  ELSE MarkOver(a, e.t)
 CallLProps(a, e) ==
   IF CanRecord(a, e.t)
   THEN AddEnt(a, e.t, [n |-> None, k |-> "props", par |-> InnerLocal(Frames(a, e.t)), props |-> e.kvs, open |-> FALSE])
-  ELSE a
+  ELSE MarkOver(a, e.t)
 LocalLive(a, t, l) == \E i \in DOMAIN Frames(a, t) : Frames(a, t)[i].k = "ls" /\ Frames(a, t)[i].n = l /\ Frames(a, t)[i].live
 CallLWith(a, e) ==
   IF LocalLive(a, e.t, e.l)
@@ -385,6 +390,9 @@ CallLWith(a, e) ==
 WantCC(a, e) ==
   CASE e.op = "lprops" -> IF ScopeSampled(a, e.t) THEN IF CanRecord(a, e.t) THEN 1 ELSE None ELSE 0
     [] e.op = "lwith"  -> IF LocalLive(a, e.t, e.l) THEN 1 ELSE 0
+    \* an Event is built before it is attached: its properties closure runs exactly once, unless
+    \* tracing is compiled out
+    [] e.op \in {"levent", "sevent"} -> IF a.cfg.enabled THEN 1 ELSE 0
     [] e.op \in {"sprops", "swith"} ->
          IF ~Has(a.sp, e.h) \/ a.sp[e.h].noop \/ a.sp[e.h].fin THEN 0 ELSE IF a.sp[e.h].lin = <<>> THEN None ELSE 1
     [] OTHER -> None
@@ -516,7 +524,7 @@ RetSpanId(a, e) == IF Has(a.sp, e.h) /\ ~a.sp[e.h].noop /\ a.sp[e.h].lin # <<>> 
 
 RetClosure(a, e) ==
   LET w == WantCC(a, e) IN
-  IF w # None /\ e.cc # w THEN Viol(a, "C16", "closure-calls", <<e.op, w, e.cc>>) ELSE a
+  IF w # None /\ Has(e, "cc") /\ e.cc # w THEN Viol(a, "C16", "closure-calls", <<e.op, w, e.cc>>) ELSE a
 
 RetElapsed(a, e) ==
   LET want == Has(a.sp, e.h) /\ ~a.sp[e.h].noop
@@ -585,9 +593,10 @@ TakeRecord(a, rec) ==
            a3 == IF e.par = None
                  THEN IF a.rt[e.r].rpar # rec.parent THEN Viol(a2, "C02", "remote-parent", rec) ELSE a2
                  ELSE IF fit = {} /\ open = {}
-                 THEN LET v == Viol(a2, "C02", "wrong-parent", [rec |-> rec, want |-> e.par]) IN
+                 THEN LET v == Viol(a2, "C02", "wrong-parent", [rec |-> rec, want |-> e.par])
                       \* the parent came from the thread's local context: that is C10's business as well
-                      IF e.own \/ (Has(a.sp, e.n) /\ a.sp[e.n].via = "local") THEN Viol(v, "C10", "wrong-parent-from-local-context", [rec |-> rec, want |-> e.par]) ELSE v
+                      v2 == IF e.own \/ (Has(a.sp, e.n) /\ a.sp[e.n].via = "local") THEN Viol(v, "C10", "wrong-parent-from-local-context", [rec |-> rec, want |-> e.par]) ELSE v IN
+                      IF e.own /\ WasOver(a, e.sc) THEN Viol(v2, "C09", "wrong-parent-beyond-the-scope-limit", [rec |-> rec, want |-> e.par]) ELSE v2
                  ELSE IF e.par = e.r /\ "virt" \in DOMAIN a.rt[e.r] THEN a2     \* to_span_records: the parent is a context, not a span
                  ELSE Claim(a2, "C02", e.par, rec.parent)
            cb == ContentBad(a, e, rec)
@@ -595,11 +604,12 @@ TakeRecord(a, rec) ==
            \* the same span has another copy in the same trace (several parents that share a trace)
            twin == \E x \in a.exp \cup a.opt \cup a.dl : x.n = e.n /\ x.r = e.r /\ x.ci # e.ci
            \* an attachment can only be missing legitimately when the trace's start was refused (C09)
-           a4 == IF cb = "ok" THEN a3
+           a4x == IF cb = "ok" THEN a3
                  ELSE IF cb = "missing-attachment" /\ e.r \in a.qs THEN Viol(a3, "C09", "attachment-lost-after-refused-start", rec)
                  ELSE ViolK(a3, IF a.rt[e.r].dcancel THEN "C04" ELSE IF AdProp(a, e.n) # None THEN AdProp(a, e.n) ELSE "C06", cb, [rec |-> rec, must |-> e.must],
                             IF cb = "missing-attachment" /\ cid \in a.cut THEN "cut"
                             ELSE IF cb \in {"missing-attachment", "duplicate-attachment"} /\ twin THEN "twin" ELSE None)
+           a4 == IF cb # "ok" /\ e.own /\ WasOver(a, e.sc) THEN Viol(a4x, "C09", "recorded-span-changed-beyond-the-scope-limit", [w |-> cb, rec |-> rec, must |-> e.must]) ELSE a4x
            tb == TimeBad(a, rec)
            a5 == IF tb = "ok" THEN a4
                  ELSE LET v == Viol(a4, "C18", tb, [rec |-> rec, tm |-> a.tm[rec.name]]) IN
@@ -789,7 +799,8 @@ Ret(a, e) ==
               [] e.op = "lwith"  -> CallLWith(RetClosure(a0, e), e)
               [] e.op = "swith"  -> CallSWith(RetClosure(a0, e), e)
               [] e.op = "sprops" -> RetSProps(RetClosure(a0, e), e)
-              [] e.op = "sevent" -> RetSEvent(a0, e)
+              [] e.op = "sevent" -> RetSEvent(RetClosure(a0, e), e)
+              [] e.op = "levent" -> RetClosure(a0, e)
               [] e.op = "ctxl"   -> RetCtxLocal(a0, e)
               [] e.op = "ctxs"   -> RetCtxSpan(a0, e)
               [] e.op = "elapsed" -> RetElapsed(a0, e)
